@@ -1,4 +1,5 @@
 import CapyV.Model.AggEq
+import CapyV.Model.EvalOrder
 import CapyV.Driver.Util
 import CapyV.Driver.TyCodec
 /-! Line protocol for C01's aggregate-equality stream (trusted glue). -/
@@ -16,7 +17,14 @@ partial def sexpToV : Sexp → Option V
   | .list (.atom "a" :: vs) => (vs.mapM sexpToV).map V.agg
   | _ => none
 
-/-- `aggeq <value> | <value>` → `true` / `false` -/
+/-- `(t 7)` = tick with tag 7, `(n e1 e2 …)` = node with children in written order -/
+partial def sexpToE : Sexp → Option EvalOrder.E
+  | .list [.atom "t", .atom k] => k.toNat?.map EvalOrder.E.tick
+  | .list (.atom "n" :: ks) => (ks.mapM sexpToE).map EvalOrder.E.node
+  | _ => none
+
+/-- `aggeq <value> | <value>` → `true` / `false`;
+`order <expr>` → `<tags,comma separated> ; <leaf values, comma separated>` -/
 def c01 (args : List String) : String :=
   match args with
   | "aggeq" :: rest =>
@@ -26,6 +34,12 @@ def c01 (args : List String) : String :=
       | some a, some b => toString (veq a b)
       | _, _ => "bad-op"
     | _ => "bad-op"
+  | "order" :: rest =>
+    match (parseSexp (" ".intercalate rest)).bind sexpToE with
+    | some e =>
+      let r := EvalOrder.run e 0
+      ",".intercalate (r.1.map toString) ++ " ; " ++ ",".intercalate (r.2.1.map toString)
+    | none => "bad-op"
   | _ => "bad-op"
 
 end CapyV.Driver
